@@ -18,7 +18,9 @@
   by the correspondence over boundary-dense frame counts in every geometry: metadata bytes after
   initialisation compared with the model, full exhaust/free cycles with the ownership oracle.
 -/
-import LLFreeV.Proofs.Geom
+import LLFreeV.Proofs.UpperInit
+import LLFreeV.Proofs.CfgOk
+import LLFreeV.Model.Policies
 namespace LLFree.C06
 open LLFree
 
@@ -74,5 +76,67 @@ theorem reserve_all_split (n hf h : Nat) (hpos : 0 < hf) : h < n / hf ↔ (h + 1
 
 /-- Non-vacuity: 1000 frames with 512-frame huge frames: counters 512 and 488. -/
 example : freeAllEntry 1000 512 0 = 512 ∧ freeAllEntry 1000 512 1 = 488 ∧ freeAllSum 1000 512 2 = 1000 := by decide
+
+
+/-- **`Trees::new`** (run by every initialisation mode after the lower allocator is set up):
+    from a lower allocator satisfying its invariant and empty slots it establishes the upper
+    invariant with nothing hidden — every tree counter is exactly the number of free frames of
+    its tree, so a fresh free-all allocator reports every managed frame free (with
+    `free_all_sum`) and, by C02, lets exactly free frames be allocated; no frame at or beyond the
+    managed count is free (`LowerInv.outside`, C01.fresh_in_range). -/
+theorem trees_new_establishes (c : Cfg) (ok : CfgOk c) (m : Mem) (inv : LowerInv c m) (hsz : m.trees.size = c.ntrees)
+    (hss : m.slots.size = c.nslots) (habs : ∀ s, SlotAbsent m s) :
+    Runs m (Trees.init c) (fun _ m' => UpperInv0 c (fun _ => False) m' ∧ SameAlloc m m') :=
+  trees_init_spec ok m inv hsz hss habs
+
+
+/-- Non-vacuity of the premises (and of the upper invariant): the all-free allocator of two
+    64-frame trees (HUGE_ORDER 6, TREE_HUGE 1) satisfies the lower invariant; `Trees::new` then
+    yields a state satisfying the upper invariant. -/
+def cTiny : Cfg := ⟨⟨6, 1⟩, 128, [(0, 1)], 0, simplePolicy 64⟩
+def mTiny : Mem := ⟨#[0#64, 0#64], #[64, 64], #[default, default], #[LTree.none]⟩
+
+theorem tiny_lower_inv : LowerInv cTiny mTiny := by
+  have hsmall : ∀ h, h < 2 → h = 0 ∨ h = 1 := by intro h hh; omega
+  exact {
+    rowsSize := by decide
+    hugeSize := by decide
+    beyond := by
+      intro h hh
+      have : 2 ≤ h := hh
+      unfold Mem.hugeE
+      have : mTiny.huge[h]? = none := by
+        apply Array.getElem?_eq_none; show 2 ≤ h; omega
+      rw [this]; rfl
+    marker := by
+      intro h hh hm
+      have hh' : h < 2 := hh
+      rcases hsmall h hh' with rfl | rfl <;> exact absurd hm (by decide)
+    count := by
+      intro h hh _
+      have hh' : h < 2 := hh
+      rcases hsmall h hh' with rfl | rfl <;> decide
+    outside := by
+      intro f hf
+      have hf' : 128 ≤ f := hf
+      unfold Mem.bit
+      have : mTiny.rows[f / 64]? = none := by
+        apply Array.getElem?_eq_none; show 2 ≤ f / 64; omega
+      rw [this] }
+
+example : CfgOk cTiny :=
+  CfgOk.of_checks _ ⟨⟨by decide, ⟨0, rfl⟩⟩, by decide⟩ (by decide) (by decide) (by decide)
+    ⟨_, fun f => by
+      show ∃ q, (if f ≥ 64 / 2 then Policy.match 1 else if f ≥ 64 / 64 then Policy.match 255 else Policy.match 0) = Policy.match q
+      split
+      · exact ⟨_, rfl⟩
+      · split <;> exact ⟨_, rfl⟩, rfl⟩
+    (by decide)
+
+example : ∀ s, SlotAbsent mTiny s := by
+  intro s l hl
+  cases s with
+  | zero => simp [mTiny] at hl; rw [← hl]; rfl
+  | succ s => simp [mTiny] at hl
 
 end LLFree.C06
